@@ -20,6 +20,9 @@ pub struct D18 {
     /// how the timed-out command treats SIGTERM: 0 default, 1 ignores it, 2 traps it for clean-up
     #[serde(default)]
     pub term_style: u8,
+    /// Markdown: a `detached: true` test case stands between the logging ones and the last one
+    #[serde(default)]
+    pub detached: bool,
 }
 
 #[derive(Clone, Debug, Serialize, Deserialize)]
@@ -49,11 +52,12 @@ pub struct Case18 {
 }
 
 fn case_strategy() -> BoxedStrategy<Case18> {
-    let doc = (0u8..4, proptest::bool::weighted(0.2), prop_oneof![4 => Just(0u8), 2 => Just(1u8), 2 => Just(2u8), 2 => Just(3u8), 1 => Just(4u8)], 0u8..3)
-        .prop_map(|(slot, cram, outcome, term_style)| D18 {
+    let doc = (0u8..4, proptest::bool::weighted(0.2), prop_oneof![4 => Just(0u8), 2 => Just(1u8), 2 => Just(2u8), 2 => Just(3u8), 1 => Just(4u8)], 0u8..3, proptest::bool::weighted(0.3))
+        .prop_map(|(slot, cram, outcome, term_style, detached)| D18 {
             slot,
             cram,
             term_style,
+            detached: detached && !cram,
             // Cram has neither per-test timeouts nor a front-matter for the shell
             outcome: if cram && (outcome == 2 || outcome == 4) { 1 } else { outcome },
         });
@@ -130,6 +134,14 @@ fn doc_text(id: &str, d: &D18) -> (String, Vec<usize>) {
         lines.push(format!("$ {log}; test -f file-in-cwd"));
         lines.push("```".into());
         lines.push(String::new());
+        if d.detached {
+            lines.push("# detached".into());
+            lines.push(String::new());
+            lines.push("```scrut {detached: true}".into());
+            lines.push("$ true".into());
+            lines.push("```".into());
+            lines.push(String::new());
+        }
         lines.push("# third".into());
         lines.push(String::new());
         match d.outcome {
@@ -304,6 +316,7 @@ fn check_case(c: &Case18) -> V {
         .label_if(c.procs.iter().any(|p| p.docs.iter().any(|d| d.outcome == 3)), "skip_class")
         .label_if(c.procs.iter().any(|p| p.docs.iter().any(|d| d.outcome == 4)), "execution_error_class")
         .label_if(c.procs.iter().any(|p| p.parse_error), "parse_error_class")
+        .label_if(c.procs.iter().any(|p| p.docs.iter().any(|d| d.detached)), "detached_test_case")
         .label_if(c.procs.iter().any(|p| p.flag == 1), "work_directory_flag")
         .label_if(c.procs.iter().any(|p| p.flag == 2), "keep_flag")
         .label_if(c.procs.iter().any(|p| p.pinned_env), "documented_values_already_in_environment")
